@@ -161,4 +161,56 @@ def judgeSlices (g : Digraph) (u : Nat) (d : Dir) (sl : Option (List (List Nat))
           | x :: _ => canon s == canon (g.nodes.filter (fun v => mutualReach g x v))) then none
       else some "reachslice-malformed"
 
+/-! ### the public query interface as one step function, and the per-answer acceptance predicate -/
+
+inductive Op where
+  | canReach (u v : Nat) (d : Dir)
+  | reach (u : Nat) (d : Dir)
+  | reachSlice (u : Nat) (d : Dir)
+  | orReach (u : Nat) (d : Dir) (dup : List Nat)
+  | xorReach (u : Nat) (d : Dir) (dup : List Nat)
+deriving Repr, DecidableEq, Inhabited
+
+inductive Ans where
+  | bool (b : Bool)
+  | set (l : List Nat)
+  | slices (sl : Option (List (List Nat)))
+deriving Repr, DecidableEq, Inhabited
+
+/-- one public call on the model; `none` = fuel exhausted -/
+def RC.step (rc : RC) : Op → Option (RC × Ans)
+  | .canReach u v d => (rc.canReach u v d).map (fun b => (rc, .bool b))
+  | .reach u d => (rc.reachOf u d).map (fun p => (p.1, .set p.2))
+  | .reachSlice u d => (rc.reachSlice u d).map (fun p => (p.1, .slices p.2))
+  | .orReach u d dup => (rc.orReach u d dup).map (fun p => (p.1, .set p.2))
+  | .xorReach u d dup => (rc.xorReach u d dup).map (fun p => (p.1, .set p.2))
+
+def RC.runOps : RC → List Op → Option (List Ans)
+  | _, [] => some []
+  | rc, o :: os =>
+    match rc.step o with
+    | none => none
+    | some (rc', a) =>
+      match RC.runOps rc' os with
+      | none => none
+      | some as => some (a :: as)
+
+/-- the spec's verdict on one answer: it must be what plain BFS on the original graph gives -/
+def accepts (g : Digraph) : Op → Ans → Bool
+  | .canReach u v d, .bool b => b == expectCanReach g u v d
+  | .reach u d, .set l => canon l == expectReach g u d
+  | .reachSlice u d, .slices sl => (judgeSlices g u d (sl.map (·.map canon))).isNone
+  | .orReach u d dup, .set l => canon l == expectOrReach g u d dup
+  | .xorReach u d dup, .set l => canon l == expectXorReach g u d dup
+  | _, _ => false
+
+def acceptsAll (g : Digraph) : List Op → List Ans → Bool
+  | [], [] => true
+  | o :: os, a :: as => accepts g o a && acceptsAll g os as
+  | _, _ => false
+
+/-- builder script → digraph (what the harness's `graph` line does) -/
+def Digraph.ofEdges (nodes : List Nat) (edges : List (Nat × Nat)) : Digraph :=
+  edges.foldl (fun g e => g.addEdge e.1 e.2) (addNodes nodes Digraph.empty)
+
 end Dawgs.C15
